@@ -1,10 +1,11 @@
 #!/bin/sh
-# usage: tools/all_seeds.sh [outfile]  -- runs every seeded change against the quick tier of its own property's check
+# usage: tools/all_seeds.sh [outfile] [regex on seed names, e.g. "^C0[19]"]  -- runs every seeded change against the quick tier of its own property's check
 # (in the scratch worktree /tmp/mut, never /repo) and prints one line per seed: <seed> <check> CAUGHT|MISSED|BROKEN
-OUT="${1:-/tmp/all_seeds.txt}"; : > "$OUT"
+OUT="${1:-/tmp/all_seeds.txt}"; : > "$OUT"; FILT="${2:-.}"
 git -C /repo worktree list | grep -q /tmp/mut || git -C /repo worktree add -q --detach /tmp/mut HEAD
 for d in /verif/seeded/*/; do
   s=$(basename "$d"); id=$(echo "$s" | cut -c1-3)
+  echo "$s" | grep -Eq "$FILT" || continue
   # a seed written against one property whose change is a violation of a neighbouring property's statement names that check in meta.json
   rc_=$(jq -r '.run_check // empty' "$d/meta.json" 2>/dev/null); [ -n "$rc_" ] && id="$rc_"
   git -C /tmp/mut checkout -q -- . && git -C /tmp/mut checkout -q --detach "$(git -C /repo rev-parse HEAD)" && git -C /tmp/mut apply "$d/patch.diff" || { echo "$s $id PATCH-FAILS" >> "$OUT"; continue; }
